@@ -183,6 +183,7 @@ struct Exact {
   std::string hist, config;
   bool failed = false;
   bool small = true; // every constant so far is small (brute force applicable)
+  bool had_meet = false, no_meets = false;
   bool big_ok = false;
   long probes = 0, bottoms = 0, finite_bounds = 0, tightened = 0;
 
@@ -202,7 +203,10 @@ struct Exact {
   void fail(const std::string &op, const std::string &item, const std::string &detail) {
     if (failed) return;
     failed = true;
-    ctx.violation("C12", std::string(dom.name) + "|" + op + "|" + item, kase, detail + "\nconfig: " + config + "\nhistory:\n" + hist);
+    // split_oct's meet leaves the octagon not closed (known finding): whatever is computed from
+    // such a value later is tagged so that the clean histories keep their own fingerprints
+    std::string opx = op + (L == L_OCT && had_meet && op.compare(0, 4, "meet") != 0 ? "+after-meet" : "");
+    ctx.violation("C12", std::string(dom.name) + "|" + opx + "|" + item, kase, detail + "\nconfig: " + config + "\nhistory:\n" + hist);
   }
   void fail4(const std::string &op, const std::string &item, const std::string &detail) {
     if (failed) return;
@@ -369,6 +373,7 @@ struct Exact {
     B = build(p);
     config = std::string("dom=") + dom.name + " " + randomize_domain_params(dom, r) + "language=" + (L == L_INT ? "intervals" : L == L_ZONE ? "zones" : "octagons") + " vars=" + std::to_string(n);
     lang = language(n, L);
+    no_meets = L == L_OCT && r.coin();
     big_ok = std::string(dom.name) == "int" || std::string(dom.name) == "sdbm_big"; // checked 64-bit weights refuse what they cannot hold
     for (int i = 0; i < NP; ++i) {
       A.push_back(dom.make());
@@ -379,6 +384,8 @@ struct Exact {
     for (int s = 0; s < steps && !failed; ++s) {
       int i = (int)r.below(NP), j = (int)r.below(NP), k = (int)r.below(NP);
       int op = (int)r.below(20);
+      if (no_meets && op >= 12 && op < 15) op = 0; // octagon histories without meet (see fail())
+      if (op >= 12 && op < 15) had_meet = true;
       std::string opname;
       try {
         if (op < 9) { // assume one constraint or a batch
